@@ -42,12 +42,25 @@ def gen_ast(rng):
     rng.shuffle(labels)
     defined = []
     n = rng.randrange(6, 22)
+    pending_local = None       # a local label of the current region that is referenced first and defined a little later
     for i in range(n):
         r = rng.random()
-        if r < 0.2 and labels:
+        if pending_local and pending_local[1] <= 0:
+            items.append(('label', pending_local[0]))
+            pending_local = None
+            continue
+        if pending_local:
+            pending_local[1] -= 1
+        if r < 0.2 and labels and not pending_local:
             nm = labels.pop()
             items.append(('label', nm))
             defined.append(nm)
+            if rng.random() < 0.6:
+                # the statement right after a non-local label refers to a local label of the region it opens; the same local
+                # names are reused in every region, so resolving in the previous region gives a different (valid) value
+                ln = rng.choice(['.lp', '.nx'])
+                items.append(('instr', 'jmp', [[ln]]) if rng.random() < 0.6 else ('instr', 'ldi', [['BYTE0(', ln, ')']]))
+                pending_local = [ln, rng.randrange(0, 3)]
             continue
         if r < 0.26:
             items.append(('const', f'K_{i}', [str(rng.randrange(0, 200))]))
@@ -90,6 +103,8 @@ def gen_ast(rng):
         else:
             ops = [['[', R('a'), '+', rng.choice([num, R('b')]), ']']]
         items.append(('instr', mn, ops))
+    if pending_local:
+        items.append(('label', pending_local[0]))
     items.append(('data', '.byte', [['$EE']]))
     return items
 
@@ -215,7 +230,7 @@ class C18(core.Check):
     chunk = 900
     required_buckets = {**{'alone:' + k: 3 for k in REWRITES}, 'all-together': 3, 'tab-after-mnemonic': 3,
                         'upper-register-in-brackets': 3, 'upper-register-indexed': 3, 'label-contains-mnemonic': 3,
-                        'joined>=2': 3, 'joined>=3': 3}
+                        'joined>=2': 3, 'joined>=3': 3, 'label-in-front-of-local-reference': 3}
 
     def cases(self, tier, seed):
         n_pre = 120
@@ -253,6 +268,8 @@ class C18(core.Check):
                     t.add('upper-register-indexed')
                 if any(it[0] == 'label' and it[1] in ('loop_nop', 'ld_ptr', 'inr2x', 'x_jmp_tab', 'nib4', 'sel_', 'q4q') for it in ast):
                     t.add('label-contains-mnemonic')
+                if 'label-placement' in ks and re.search(r'^\s*\w+:[ \t]+\S*.*\.(lp|nx)\b', src, re.M):
+                    t.add('label-in-front-of-local-reference')
                 if 'join-instructions' in ks:
                     for ln in src.split('\n'):
                         c_ = len(re.findall(r'(?i)(?<![\w.])(nop|q4|inr|nib|ldi|q12|tri|jmp|ldx|sel|mv2|lix|liy|bra)(?![\w.])', ln.split(';')[0]))
